@@ -26,14 +26,12 @@ def kind_of(col):
 
 
 # Behaviour of the UNCHANGED tree that a strict reading of the property text does not cover (reported to the
-# coordinator, not decided yet).  While False, the cases below are kept out of the default stream / are not judged
-# by the property oracle:
-#   * ops.weight(col) raises TypeError when the DataMatrix also holds a SeriesColumn (`dm2[colname] = type(_col)`
-#     needs a depth) although "column types preserved" is promised;
+# coordinator; decided: stays pending / outside the quantifier).  While False, the cases below are kept out of the
+# default stream / are not judged by the property oracle:
 #   * ops.replace(MixedColumn, {nan: v}) never matches a NaN cell (it does in Float columns);
-#   * ops.replace(FloatColumn / IntColumn, {'text': v}) raises TypeError (np.isnan of a non-number) instead of
-#     returning an unchanged copy;
 #   * ops.z(MixedColumn holding -inf) is all NaN (`_nanorinf` drops +inf but not -inf).
+# (Repaired in /repo and now in the default stream: weight with a SeriesColumn in the table; a key that is no
+#  number on a numeric column.)
 INCLUDE_PENDING_FINDINGS = False
 
 U53 = 2.0 ** -53            # unit roundoff of binary64
@@ -160,12 +158,13 @@ class C15:
     exhaustive = False
     rule = ('weight: every weight vector in 0..4 for 1-3 rows (exhaustive; 4-5 rows sampled) in Mixed and Int weight columns, '
             'next to payload columns of all three types, plus invalid vectors (negative, non-integral float, str, None, '
-            'nan, inf, FloatColumn, all non-numeric) and the empty table; _fullfact: every level vector of 1-3 factors x 0-3 '
+            'nan, inf, FloatColumn, all non-numeric) and the empty table, and tables that also hold 1-2 series columns of depth 1-4 '
+            '(valid and invalid weights, reordered rows; judged on the Python side); _fullfact: every level vector of 1-3 factors x 0-3 '
             'levels exhaustively, 4 factors / 4 levels sampled (thorough: all); fullfactorial: every shape up to 3 columns x 3 '
             'rows with every placement of ignored cells (exhaustive, 682 designs), 4 columns / 4 rows sampled, ignore values '
             "'', 0, text, None, nan, 2.5, non-Mixed columns and the empty design for the model; replace: random mappings "
-            'over the three column types, disjoint (oracle + model) and chained (model only), NaN keys, malformed keys / '
-            'values; keep_only / dm[...]: every subset of 1-4 columns by name, by object and mixed, through keep_only(*), '
+            'over the three column types, disjoint (oracle + model) and chained (model only), NaN keys, keys that are no '
+            'numbers on numeric columns (unchanged copy expected), malformed values; keep_only / dm[...]: every subset of 1-4 columns by name, by object and mixed, through keep_only(*), '
             'keep_only([..]) and dm[..], with unknown names, foreign columns, aliases and non-column arguments (column objects are '
             'handed to the model as identities, it resolves their names itself); also by object after the name of the column was looked up (col.name, keep_only / dm[...] by object) and the column was then renamed, re-added under a new name or swapped names with another column (judged by the current name); z: Float, '
             'Mixed and Int columns with >= 2 distinct finite values and nan/inf/text/None cells in between: small everyday values, '
@@ -179,7 +178,7 @@ class C15:
     trusted_base = [
         'Coq 8.16.1 kernel (coqc; vm_compute for evaluating cases; no native_compute)',
         'translator /verif/translate/gen_opsmisc.py (+ py2coq.py): guards, index and repeat-count arithmetic of weight, '
-        '_fullfact, fullfactorial, replace (cell test of the MixedColumn branch, isnan / == choice of the NumPy branch), '
+        '_fullfact, fullfactorial, replace (cell test of the MixedColumn branch; float-NaN key test and isnan / == choice of the NumPy branch), '
         'keep_only, the dispatch chain of _colname, BaseColumn.name (comprehension filter, no-name and single-name tests) '
         '/mean/std, z -> Gen/KOpsMisc.v; the loop skeletons around them are pinned (any structural change fails the translation)',
         'hand-written skeletons in Model/OpsMisc.v (loop structure, element-wise reading of np.isnan(array) / array == x, '
@@ -206,12 +205,18 @@ class C15:
         '2^52) are judged for shape, exceptions and monotonicity only. The theorems are over exact rationals with s*s = '
         'variance as a hypothesis; element-wise column arithmetic is C13',
         'ints in z inputs stay below 2^53 (float(int) exact)',
-        'pending findings (INCLUDE_PENDING_FINDINGS = False): weight with a SeriesColumn in the table, a NaN key on a '
-        'MixedColumn holding NaN (not judged by the oracle, model still compared), a non-number key on a numeric column '
-        '(model only, as before), -inf in a MixedColumn given to z (not generated)',
+        'pending / outside the quantifier (INCLUDE_PENDING_FINDINGS = False): a NaN key on a MixedColumn holding NaN cells '
+        '(never matches; not judged by the oracle, the model is still compared) and -inf in a MixedColumn given to z (all '
+        'scores NaN; not generated)',
+        'replace on numeric columns: a NaN key that is not a Python float (numpy.float32 NaN) is outside the claim '
+        '(compared with ==, designates nothing; premise nan_key_ok of C15_replace_numeric_pass)',
+        'weight on a table holding SeriesColumns: series cells are outside the Coq cell type (Spec.Nf.kind / val), so these '
+        'cases are judged on the Python side only (rows repeated w_i times in order, series type and depth preserved, '
+        'TypeError for invalid weights, source unchanged); the column-creation branch of weight is pinned',
         'z of an IntColumn returns a FloatColumn (repaired defect: the scores used to be truncated to integers)',
-        'replace on numeric columns: keys and values are numbers (other objects are outside the claim; the model still '
-        'describes the exceptions NumPy raises for them)',
+        'replace on numeric columns: values are numbers (other values are outside the claim; the model still describes the '
+        'exceptions NumPy raises for them); keys are arbitrary: a key that is no number (text, None) equals no cell and '
+        'yields an unchanged copy',
     ]
 
     # ------------------------------------------------------------ running
@@ -260,30 +265,70 @@ class C15:
         return self._finish(inp, 'weight', src_lit, src_py, dm, observed, pyfail, oracle, model, nontriv, tags)
 
     def _run_weight_series(self, inp):
-        """pending finding: weight on a DataMatrix that also holds a SeriesColumn (judged Python-side only)"""
+        """weight on a DataMatrix that also holds SeriesColumns.  Series cells are outside the Coq cell type, so the
+        case is judged on the Python side against a direct reference: source row i appears w_i consecutive times, in
+        order, in every column; column types and series depths are preserved; TypeError for anything that is not a
+        non-negative int; the source is not modified."""
         from datamatrix import DataMatrix, SeriesColumn, operations as ops
-        ws = inp['weights']
-        dm = DataMatrix(length=len(ws))
-        dm.w = ws
-        dm.s = SeriesColumn(depth=inp['depth'])
-        for i in range(len(ws)):
-            dm.s[i] = [i * 10 + j for j in range(inp['depth'])]
+        from datamatrix._datamatrix._seriescolumn import _SeriesColumn
+        ws = [pyobs.dec(w) for w in inp['weights']]
+        n = len(ws)
+        dm = DataMatrix(length=n)
+        order = inp.get('order') or ['w'] + [nm for nm, _d in inp['series']] + (['p'] if inp.get('payload') else [])
+        for nm in order:                      # insertion order is part of the input
+            if nm == 'w':
+                dm.w = coltype(inp['wkind'])
+                dm.w = ws
+            elif nm == 'p':
+                dm.p = ['r%d' % i for i in range(n)]
+            else:
+                depth = dict(inp['series'])[nm]
+                dm[nm] = SeriesColumn(depth=depth)
+                for i in range(n):
+                    dm[nm][i] = [i * 10 + j + 0.5 * len(nm) for j in range(depth)]
+        if inp.get('rowop') is not None:
+            dm = dm[list(inp['rowop'])]
+
+        def snapshot(d):
+            out = {'len': len(d), 'names': [nm for nm, _c in d.columns]}
+            for nm, c in d.columns:
+                if isinstance(c, _SeriesColumn):
+                    out[nm] = ['series', c.depth, [[float(x) for x in cell] for cell in c]]
+                else:
+                    out[nm] = [kind_of(c), [pyobs.jsonable(x) for x in c]]
+            return out
+        before = snapshot(dm)
+        src_w = list(dm.w)
+        valid = all(type(w) is int and w >= 0 for w in src_w)
         pyfail = None
         try:
             with warnings.catch_warnings():
                 warnings.simplefilter('ignore')
                 r = ops.weight(dm.w)
-            rows = [i for i, w in enumerate(ws) for _c in range(w)]
-            observed = {'w': list(r.w), 'series': [[float(x) for x in cell] for cell in r.s], 'type': type(r.s).__name__}
-            if type(r.s) is not type(dm.s) or list(r.w) != [ws[i] for i in rows] \
-                    or observed['series'] != [[float(i * 10 + j) for j in range(inp['depth'])] for i in rows]:
-                pyfail = 'weight with a SeriesColumn: rows / types not preserved: %r' % (observed,)
+            observed = snapshot(r)
+            if not valid:
+                pyfail = 'weight accepted the weights %r (TypeError expected)' % (src_w,)
+            else:
+                rows = [i for i, w in enumerate(src_w) for _c in range(w)]
+                expected = {'len': len(rows), 'names': before['names']}
+                for nm in before['names']:
+                    b = before[nm]
+                    expected[nm] = b[:-1] + [[b[-1][i] for i in rows]]
+                if r is dm:
+                    pyfail = 'weight returned its source'
+                elif observed != expected:
+                    pyfail = 'weight with series columns: expected %r, found %r' % (expected, observed)
         except Exception as e:          # noqa: BLE001
             observed = {'raises': pyobs.exn_name(e), 'msg': str(e)[:200]}
-            pyfail = ('weight raised %s for valid weights %r because the DataMatrix also holds a SeriesColumn '
-                      '(column types are to be preserved)' % (pyobs.exn_name(e), ws))
+            if valid or pyobs.exn_name(e) != 'TypeError':
+                pyfail = ('weight raised %s for the weights %r in a DataMatrix holding series columns%s'
+                          % (pyobs.exn_name(e), src_w, '' if valid else ' (TypeError expected)'))
+        if snapshot(dm) != before:
+            pyfail = pyfail or 'the source DataMatrix was modified by weight: %r -> %r' % (before, snapshot(dm))
         return {'input': inp, 'observed': observed, 'pyfail': pyfail, 'oracle': 'false' if pyfail else 'true', 'model': 'true',
-                'nontrivial': True, 'sig': 'weight_series|%s' % _compact(inp), 'tags': ['weight', 'weight:pending-series']}
+                'nontrivial': True, 'sig': 'weight_series|%s' % _compact(inp),
+                'tags': ['weight', 'weight:with-series', 'weight:' + ('ok' if valid else 'error'), 'wkind:' + inp['wkind'],
+                         'rows:' + ('asis' if inp.get('rowop') is None else 'reordered')]}
 
     def _run_fullfact(self, inp):
         from datamatrix import operations as ops
@@ -380,11 +425,7 @@ class C15:
                 pyfail = pyfail or ('a NaN key did not replace the NaN cells of a MixedColumn (it does in a FloatColumn): '
                                     '%r -> %r' % (list(col), list(r)))
         if kd != 'KMixed' and any(not isinstance(k, (int, float)) for k, _v in pairs):
-            tags.append('replace:pending-non-number-key')
-            if INCLUDE_PENDING_FINDINGS and 'raises' in observed \
-                    and all(isinstance(v, (int, float)) and not isinstance(v, bool) for _k, v in pairs):
-                pyfail = pyfail or ('replace on a %s with a key that is no number raised %s; no cell equals such a key, '
-                                    'an unchanged copy is expected' % (kd, observed['raises']))
+            tags.append('replace:non-number-key')
         return self._finish(inp, 'replace', src_lit, src_py, dm, observed, pyfail, oracle, model, nontriv, tags)
 
     def _run_keep(self, inp):
@@ -632,6 +673,31 @@ class C15:
             one([rng.choice(['a', None, '']) for _ in range(n)], 'KMixed', ['invalid'])
         one([], 'KMixed', ['empty'], 'asis')
         one([], 'KInt', ['empty'], 'asis')
+        # tables that also hold series columns (judged on the Python side): every weight vector in 0..3 for 1-2 rows,
+        # sampled longer ones, invalid weights, several series columns of different depth, reordered rows
+        def with_series(ws, wkind):
+            n = len(ws)
+            series = [[nm, rng.randint(1, 4)] for nm in rng.sample(['s', 'aa', 'zs'], rng.randint(1, 2))]
+            payload = rng.random() < 0.5
+            order = ['w'] + [nm for nm, _d in series] + (['p'] if payload else [])
+            rng.shuffle(order)
+            rowop = None
+            if n > 1 and rng.random() < 0.4:
+                rowop = list(range(n))
+                rng.shuffle(rowop)
+            cases.append(self.rerun({'op': 'weight_series', 'weights': enc_cells(ws), 'wkind': wkind, 'series': series,
+                                     'payload': payload, 'order': order, 'rowop': rowop}))
+        for n in (1, 2):
+            for ws in itertools.product(range(4), repeat=n):
+                with_series(list(ws), rng.choice(['KMixed', 'KInt']))
+        for _ in range(25 if tier == 'quick' else 300):
+            with_series([rng.randint(0, 4) for _i in range(rng.randint(3, 6))], rng.choice(['KMixed', 'KInt']))
+        for _ in range(12 if tier == 'quick' else 100):
+            n = rng.randint(1, 4)
+            ws = [rng.randint(0, 3) for _i in range(n)]
+            ws[rng.randrange(n)] = rng.choice(bad)
+            with_series(ws, 'KMixed')
+        with_series([rng.choice([-1, -2]) for _i in range(2)], 'KInt')
         return cases
 
     def gen_fullfact(self, rng, tier):
@@ -739,14 +805,19 @@ class C15:
                 # chains: a value that is itself a later / earlier key (outside the quantifier: model only)
                 ks = rng.sample([k for k in pools[kd] if k == k], min(3, len(pools[kd]) - 1))
                 one(kd, [(ks[i], ks[(i + 1) % len(ks)]) for i in range(len(ks))], ['mapping:chain'])
-        bad_keys = ['a', None]
+        # keys that are no numbers on numeric columns: nothing equals them, an unchanged copy is expected (also when
+        # they sit between keys that do match)
+        odd_keys = ['a', None, '', '1', '1.5', 'nan', 'é']
+        for kd in ('KFloat', 'KInt'):
+            for _ in range(30 if tier == 'quick' else 300):
+                ks = rng.sample(odd_keys, rng.randint(1, 2)) + rng.sample([k for k in keyp[kd] if k == k], rng.randint(0, 2))
+                rng.shuffle(ks)
+                one(kd, [(k, rng.choice([100, 101, 55] if kd == 'KInt' else [100, 101.5, -7.25])) for k in ks],
+                    ['mapping:non-number-key'])
         bad_vals = {'KFloat': ['a', None, '7.5', ''], 'KInt': ['a', None, '7', '1.5', NAN, INF]}
         for kd in ('KFloat', 'KInt'):
             for _ in range(12 if tier == 'quick' else 100):
-                if rng.random() < 0.4:
-                    one(kd, [(rng.choice(bad_keys), 1)], ['mapping:malformed'])
-                else:
-                    one(kd, [(rng.choice([0, 1, 99]), rng.choice(bad_vals[kd]))], ['mapping:malformed'])
+                one(kd, [(rng.choice([0, 1, 99, 'a']), rng.choice(bad_vals[kd]))], ['mapping:malformed'])
         for _ in range(10 if tier == 'quick' else 100):
             one('KMixed', [(rng.choice([0, 'a', 99]), Foreign())], ['mapping:malformed'])
         return [c for c in cases if c is not None]
@@ -964,14 +1035,9 @@ class C15:
         return [c for c in cases if c is not None]
 
     def gen_pending(self, rng, tier):
-        """cases on which the UNCHANGED tree departs from a strict reading of the property (see INCLUDE_PENDING_FINDINGS);
-        the NaN-key / non-number-key / -inf cases ride in gen_replace / gen_z and are switched by the same constant"""
-        cases = []
-        if not INCLUDE_PENDING_FINDINGS:
-            return cases
-        for ws in ([1, 2], [0], [2, 0, 1]):
-            cases.append(self.rerun({'op': 'weight_series', 'weights': ws, 'depth': rng.randint(1, 3)}))
-        return cases
+        """cases on which the UNCHANGED tree departs from a strict reading of the property (see INCLUDE_PENDING_FINDINGS):
+        the NaN-key-on-MixedColumn and -inf cases ride in gen_replace / gen_z and are switched by the same constant"""
+        return []
 
     def generate(self, rng, tier):
         cases = []
@@ -992,6 +1058,16 @@ class C15:
                     yield {'op': op, 'levels': lv[:i] + [lv[i] - 1] + lv[i + 1:]}
             return
         if op == 'weight_series':
+            ws = inp['weights']
+            if len(ws) > 1:
+                for i in range(len(ws)):
+                    yield dict(inp, weights=ws[:i] + ws[i + 1:], rowop=None)
+            if len(inp['series']) > 1:
+                for i in range(len(inp['series'])):
+                    sr = inp['series'][:i] + inp['series'][i + 1:]
+                    yield dict(inp, series=sr, order=[x for x in inp['order'] if x in ('w', 'p') or x in dict(sr)])
+            if inp.get('payload'):
+                yield dict(inp, payload=False, order=[x for x in inp['order'] if x != 'p'])
             return
         tab = inp['tab']
         needed = {inp.get('wname'), inp.get('col')} | {list(a.values())[0] for a in inp.get('args', [])} \
